@@ -53,6 +53,49 @@ theorem asked_within_collateral (pr yr : Dec) (p : Provider) (tp ty : Int)
   repeat' split
   all_goals (rename_i h1' h2' <;> first | omega | (simp only [Bool.and_eq_true, decide_eq_true_eq, not_and, Int.not_lt] at *; omega))
 
+theorem tdiv_mul_le' (x d : Int) (hx : 0 ≤ x) (hd : 0 < d) : Int.tdiv x d * d ≤ x := by
+  rw [Int.tdiv_eq_ediv_of_nonneg hx]
+  exact Int.ediv_mul_le x (Int.ne_of_gt hd)
+
+/-- the two ratios `CreateReimbursement` works with — shield sold over collateral and payout over collateral — add up to at most
+    one plus one unit of rounding whenever shield plus payout is within the collateral (which C06 maintains: the payout was
+    locked, and shield is sold only against collateral that is neither locked nor being withdrawn) -/
+theorem ratios_add_up (ts a T : Int) (hts : 0 ≤ ts) (ha : 0 ≤ a) (hT : 0 < T) (hle : ts + a ≤ T) :
+    (Dec.quo (Dec.ofInt ts) (Dec.ofInt T)).raw + (Dec.quo (Dec.ofInt a) (Dec.ofInt T)).raw ≤ Dec.prec + 1 := by
+  have hP : (0 : Int) < Dec.prec := by decide
+  have hTP : 0 < T * Dec.prec := Int.mul_pos hT hP
+  have hx1 : 0 ≤ ts * Dec.prec * Dec.prec * Dec.prec :=
+    Int.mul_nonneg (Int.mul_nonneg (Int.mul_nonneg hts (Int.le_of_lt hP)) (Int.le_of_lt hP)) (Int.le_of_lt hP)
+  have hx2 : 0 ≤ a * Dec.prec * Dec.prec * Dec.prec :=
+    Int.mul_nonneg (Int.mul_nonneg (Int.mul_nonneg ha (Int.le_of_lt hP)) (Int.le_of_lt hP)) (Int.le_of_lt hP)
+  show Dec.chopRound (Int.tdiv (ts * Dec.prec * Dec.prec * Dec.prec) (T * Dec.prec)) +
+       Dec.chopRound (Int.tdiv (a * Dec.prec * Dec.prec * Dec.prec) (T * Dec.prec)) ≤ Dec.prec + 1
+  generalize hz1 : Int.tdiv (ts * Dec.prec * Dec.prec * Dec.prec) (T * Dec.prec) = z1
+  generalize hz2 : Int.tdiv (a * Dec.prec * Dec.prec * Dec.prec) (T * Dec.prec) = z2
+  have hz1n : 0 ≤ z1 := by rw [← hz1, Int.tdiv_eq_ediv_of_nonneg hx1]; exact Int.ediv_nonneg hx1 (Int.le_of_lt hTP)
+  have hz2n : 0 ≤ z2 := by rw [← hz2, Int.tdiv_eq_ediv_of_nonneg hx2]; exact Int.ediv_nonneg hx2 (Int.le_of_lt hTP)
+  have h1 : z1 * (T * Dec.prec) ≤ ts * Dec.prec * Dec.prec * Dec.prec := by rw [← hz1]; exact tdiv_mul_le' _ _ hx1 hTP
+  have h2 : z2 * (T * Dec.prec) ≤ a * Dec.prec * Dec.prec * Dec.prec := by rw [← hz2]; exact tdiv_mul_le' _ _ hx2 hTP
+  -- (z1 + z2) · T ≤ (ts + a) · P² ≤ T · P², hence z1 + z2 ≤ P²
+  have hsum : (z1 + z2) * (T * Dec.prec) ≤ (Dec.prec * Dec.prec) * (T * Dec.prec) := by
+    have e1 : (z1 + z2) * (T * Dec.prec) = z1 * (T * Dec.prec) + z2 * (T * Dec.prec) := Int.add_mul ..
+    have e2 : ts * Dec.prec * Dec.prec * Dec.prec + a * Dec.prec * Dec.prec * Dec.prec = (ts + a) * (Dec.prec * Dec.prec * Dec.prec) := by
+      simp only [Int.mul_assoc, Int.add_mul]
+    have e3 : (ts + a) * (Dec.prec * Dec.prec * Dec.prec) ≤ T * (Dec.prec * Dec.prec * Dec.prec) :=
+      Int.mul_le_mul_of_nonneg_right hle (Int.le_of_lt (Int.mul_pos (Int.mul_pos hP hP) hP))
+    have e4 : T * (Dec.prec * Dec.prec * Dec.prec) = (Dec.prec * Dec.prec) * (T * Dec.prec) := by
+      simp only [Int.mul_assoc, Int.mul_comm, Int.mul_left_comm]
+    omega
+  have hz : z1 + z2 ≤ Dec.prec * Dec.prec := Int.le_of_mul_le_mul_right hsum hTP
+  have b1 := (Shentu.Payout.chopRound_bounds z1 hz1n).2
+  have b2 := (Shentu.Payout.chopRound_bounds z2 hz2n).2
+  -- 2·(r1 + r2)·P ≤ 2·(z1 + z2) + 2·P ≤ 2·P² + 2·P
+  have : (Dec.chopRound z1 + Dec.chopRound z2) * Dec.prec ≤ (Dec.prec + 1) * Dec.prec := by
+    have e5 : (Dec.chopRound z1 + Dec.chopRound z2) * Dec.prec = Dec.chopRound z1 * Dec.prec + Dec.chopRound z2 * Dec.prec := Int.add_mul ..
+    have e6 : (Dec.prec + 1) * Dec.prec = Dec.prec * Dec.prec + Dec.prec := by rw [Int.add_mul, Int.one_mul]
+    omega
+  exact Int.le_of_mul_le_mul_right this hP
+
 /-- **a payout that the books allow can be made**: if the provider's collateral is backed by its stake (C06) and the delegations
     are well formed, the staking level pays the provider's share exactly — no panic, no coin short -/
 theorem payout_is_makeable (pr yr : Dec) (p : Provider) (tp ty : Int) (ds : List Payout.Del) (ubds : List Int)
